@@ -820,6 +820,23 @@ func (d *decoderState) AtEOF() bool {
 	return err == io.ErrUnexpectedEOF
 }
 
+// AtEOFOrError reports [io.EOF] if the decoder is at EOF.
+// Unlike AtEOF, an I/O error that prevents this from being determined
+// is reported rather than being treated as "not at EOF", in which case
+// the error would be forgotten by the time the next token is read
+// if the underlying io.Reader only failed transiently.
+func (d *decoderState) AtEOFOrError() error {
+	switch _, err := d.consumeWhitespace(d.prevEnd); {
+	case err == io.ErrUnexpectedEOF:
+		return io.EOF
+	case err != nil:
+		if _, ok := err.(*ioError); ok {
+			return err
+		}
+	}
+	return nil
+}
+
 // CheckEOF verifies that the input has no more data.
 func (d *decoderState) CheckEOF() error {
 	return d.checkEOF(d.prevEnd)
